@@ -30,7 +30,7 @@ ASSUMPTIONS = [
     "outcome = normalised repr of the result or (exception class, message); memory addresses are masked",
     "the born-non-strict worker clears odxtools.exceptions.strict_mode before the package __init__ runs (importlib spec trick, no repository hook)",
 ]
-MUST_HIT = ["op:multi-layer-decode", "op:encode", "op:encode-mutated", "op:decode", "op:decode-corrupt", "op:layer-decode", "op:load-bad",
+MUST_HIT = ["op:cli", "cli:tool-raised", "cli:tool-returned", "bad-desc:strict-differs", "bad-desc:str-enc", "op:multi-layer-decode", "op:encode", "op:encode-mutated", "op:decode", "op:decode-corrupt", "op:layer-decode", "op:load-bad",
             "strict-differs", "strict-ok"]
 
 ADDR = re.compile(r"0x[0-9a-fA-F]{6,}")
@@ -79,6 +79,48 @@ BAD_DOC_EDITS = [
 ]
 
 
+def _dcts(o, out):
+    if isinstance(o, dict):
+        if "bt" in o and "t" in o:
+            out.append(o)
+        for v in o.values():
+            _dcts(v, out)
+    elif isinstance(o, (list, tuple)):
+        for v in o:
+            _dcts(v, out)
+    return out
+
+
+def bad_descriptions(msg, picks) -> list:
+    """copies of the message description with one non-conforming DIAG-CODED-TYPE each (an encoding that is
+    illegal for the base type, a float of 16 bits, MIN-LENGTH > MAX-LENGTH); `picks` are generated integers"""
+    import copy
+    out = []
+    for a, b in picks:
+        m2 = copy.deepcopy(msg)
+        ds = _dcts(m2, [])
+        if not ds:
+            continue
+        d = ds[a % len(ds)]
+        bt = d["bt"]
+        if bt in ("A_ASCIISTRING", "A_UTF8STRING", "A_UNICODE2STRING"):
+            opts = [("str-enc", {"enc": e}) for e in ("BCD-P", "2C", "NONE", "IEEE754", "SM")]
+        elif bt in ("A_FLOAT32", "A_FLOAT64"):
+            opts = [("float-enc", {"enc": e}) for e in ("BCD-UP", "2C", "UTF-8")] + [("float-bits", {"bl": 16})]
+        elif bt == "A_BYTEFIELD":
+            opts = [("bytes-enc", {"enc": e}) for e in ("UTF-8", "2C")]
+        else:
+            opts = [("int-enc", {"enc": e}) for e in ("UTF-8", "ISO-8859-1", "IEEE754", "UCS-2")]
+        if d["t"] == "minmax" and d.get("max") is not None:
+            opts.append(("minmax-swapped", {"min": d["max"] + 1}))
+        lab, upd = opts[b % len(opts)]
+        if d["t"] != "std" and "bl" in upd:
+            continue
+        d.update(upd)
+        out.append((f"{lab}:{bt}:{upd.get('enc', '')}", m2))
+    return out
+
+
 def make_ops(case, extra_draws) -> list:
     """all operations derived from one generated case (JSON-able)"""
     from vlib import emit
@@ -108,7 +150,19 @@ def make_ops(case, extra_draws) -> list:
         ops.append({"op": "decode-corrupt", "data": (pdu + b"\x00\x01").hex(), "label": "overlong", **base})
     for r in extra_draws.get("random", []):
         ops.append({"op": "decode-corrupt", "data": bytes(r).hex(), "label": "random", **base})
+    for lab, m2 in bad_descriptions(case["msg"], extra_draws.get("baddesc", [])):
+        b2 = {"msg": m2, "request": case.get("request")}
+        ops.append({"op": "encode", "values": case["values"], "label": "bad-desc:" + lab, **b2})
+        if pdu is not None:
+            ops.append({"op": "decode", "data": pdu.hex(), "label": "bad-desc:" + lab, **b2})
     xml = emit.message_doc([case["msg"]]).decode("utf-8")
+    cli = extra_draws.get("cli")
+    if cli:
+        docs = [("good", xml), ("missing-file", None)] + [(nm, xml.replace(a, b, 1)) for nm, a, b in BAD_DOC_EDITS if a in xml]
+        nm, x = docs[cli[0] % len(docs)]
+        tool, args = [("list", ["-a"]), ("list", []), ("decode", ["-d", pdu.hex() if pdu else "00"]),
+                      ("find", ["-d", pdu.hex() if pdu else "00"])][cli[1] % 4]
+        ops.append({"op": "cli", "label": f"{tool}:{nm}", "xml": x, "tool": tool, "args": args, "no_strict": bool(cli[2] % 2)})
     for name, a, b in BAD_DOC_EDITS:
         if a in xml:
             ops.append({"op": "load-bad", "label": name, "xml": xml.replace(a, b, 1)})
@@ -166,6 +220,43 @@ def run_op(op, cache: dict):
             b = [[m.service.short_name, m.coding_object.short_name, m.param_dict] for m in layer.decode_response(data, rq)]
             return {"decode": a, "decode_response": b}
         return _outcome(f)
+    if op["op"] == "cli":
+        # the command line front end in-process: `--no-strict` must hold exactly while the tool runs; whatever
+        # the tool does (incl. raising) the mode found before the call is back afterwards
+        import contextlib
+        import io
+        import odxtools.exceptions as ex
+        from odxtools.cli.main import start_cli
+        pre = ex.strict_mode
+        td = tempfile.mkdtemp(prefix="verif-c17cli-")
+        path = os.path.join(td, "doc.odx-d")
+        if op.get("xml") is not None:
+            with open(path, "w", encoding="utf-8") as fh:
+                fh.write(op["xml"])
+        argv = ["odxtools"] + (["--no-strict"] if op["no_strict"] else []) + [op["tool"], path] + list(op.get("args", []))
+        old_argv = sys.argv
+
+        def f():
+            sys.argv = argv
+            try:
+                with contextlib.redirect_stdout(io.StringIO()), contextlib.redirect_stderr(io.StringIO()):
+                    try:
+                        start_cli()
+                        return "returned"
+                    except SystemExit as e:
+                        return f"exit:{e.code}"
+            finally:
+                sys.argv = old_argv
+        try:
+            out = _outcome(f)
+            if out[0] == "exc":
+                out[2] = out[2].replace(td, "<tmp>")
+            after = ex.strict_mode
+        finally:
+            ex.strict_mode = pre
+            import shutil
+            shutil.rmtree(td, ignore_errors=True)
+        return ["ok", {"tool": out, "mode-restored": after == pre}]
     if op["op"] == "load-bad":
         def f():
             db = emit.load(op["xml"].encode("utf-8"))
@@ -277,6 +368,16 @@ def judge(op, flip, born) -> list:
     def F(clause, detail):
         bucket = clause
         return core.Failure(clause, f"{label}: {detail}", core.plain(small), {"bucket": bucket, "op": op["op"], "label": op.get("label")})
+    if op["op"] == "cli":
+        for nm, o in (("strict", s1), ("non-strict", n), ("strict again", s2), ("born non-strict", nb)):
+            if not (o[0] == "ok" and o[1].get("mode-restored")):
+                fails.append(F("cli-mode-not-restored", f"process was {nm}, `odxtools {'--no-strict ' if op['no_strict'] else ''}"
+                                                         f"{op['tool']}` ended with {json.dumps(o)[:200]}: strict_mode was not put back"))
+                break
+        # the flag, not the mode of the calling process, decides how the tool runs
+        if not (s1 == n == s2 == nb) and not fails:
+            fails.append(F("cli-mode-not-applied", f"outcomes differ with the mode of the calling process: {json.dumps([s1, n, nb])[:400]}"))
+        return fails
     if s1[0] == "ok" and n != s1:
         fails.append(F("lenient-changes-valid-result", f"strict returned {json.dumps(s1)[:300]} but non-strict {json.dumps(n)[:300]}"))
     if n != nb:
@@ -306,7 +407,8 @@ def run_shard(spec, seed, tier):
 
     @st.composite
     def strat(draw):
-        c = draw(gen.message_case())
+        focus = draw(st.sampled_from([None, None, "emfield", "mux", "dlfield", "sfield", "eopf"]))
+        c = draw(gen.message_case(opts={"focus": focus}))
         muts = []
         allsites = list(mutvals.sites(c["msg"]["params"], c["values"]))
         for _ in range(2):
@@ -324,7 +426,9 @@ def run_shard(spec, seed, tier):
             new, label = mutvals.mutation(draw, kind, info, cur)
             muts.append({"values": mutvals.put(c["values"], path, new), "label": label})
         extra = {"mutated": muts, "positions": draw(st.lists(st.integers(0, 200), min_size=1, max_size=2)),
-                 "random": draw(st.lists(st.binary(min_size=0, max_size=12), min_size=1, max_size=2))}
+                 "random": draw(st.lists(st.binary(min_size=0, max_size=12), min_size=1, max_size=2)),
+                 "cli": draw(st.one_of(st.none(), st.tuples(st.integers(0, 63), st.integers(0, 3), st.integers(0, 1)))),
+                 "baddesc": draw(st.lists(st.tuples(st.integers(0, 63), st.integers(0, 63)), min_size=1, max_size=2))}
         return c, extra
 
     @hypothesis.seed(seed)
@@ -349,6 +453,15 @@ def run_shard(spec, seed, tier):
     seen = set()
     for op, fo, bo in zip(ops, flip, born):
         cls = {"op:" + op["op"]}
+        if str(op.get("label", "")).startswith("bad-desc:"):
+            cls.add("bad-desc")
+            cls.add("bad-desc:" + op["label"].split(":")[1])
+            if fo["S1"] != fo["N"]:
+                cls.add("bad-desc:strict-differs")
+        if op["op"] == "cli":
+            t = fo["S1"][1]["tool"] if fo["S1"][0] == "ok" else ["?"]
+            cls.add("cli:tool-raised" if t[0] == "exc" else "cli:tool-returned")
+            cls.add("cli:" + ("no-strict" if op["no_strict"] else "strict"))
         differs = fo["S1"] != fo["N"]
         cls.add("strict-differs" if differs else "strict-same")
         if fo["S1"][0] == "ok":
